@@ -103,4 +103,38 @@ theorem runMid_preload_first_json {α : Type} (k : Fmt) (hk : scanChecksCtx k = 
     rw [runPreloaded_cancelled]
     by_cases hc : (List.filter chosen (a :: rest)).length = 0 <;> simp [hc, mapSentinel]
 
+/-- whatever the point of the cancellation: the streaming path only ever delivers chosen entries of the file, after
+what it had delivered before -/
+theorem fullScanMid_only_chosen {σ α : Type} (scan : σ → ScanRes × σ) (passNum : σ → Nat) (file : List α)
+    (chosen : α → Bool) (limit : Nat) (ret : CtxRet) (checks notices sendWins : Bool) :
+    ∀ fuel j s out o e,
+      fullScanMid scan passNum file chosen limit ret checks notices sendWins fuel j s out = some (o, e) →
+      ∃ more, o = out ++ more ∧ ∀ a ∈ more, a ∈ file ∧ chosen a = true := by
+  intro fuel
+  induction fuel with
+  | zero => intro j s out o e h; simp [fullScanMid] at h
+  | succ n ih =>
+    intro j s out o e h
+    unfold fullScanMid at h
+    repeat' split at h
+    all_goals first
+      | exact ih _ _ _ _ _ h
+      | (rename_i i _ a hfa hch
+         obtain ⟨more, rfl, hm⟩ := ih _ _ _ _ _ h
+         refine ⟨a :: more, ?_, ?_⟩
+         · simp
+         · intro x hx
+           rcases List.mem_cons.mp hx with rfl | hx
+           · exact ⟨List.mem_of_getElem? hfa, hch⟩
+           · exact hm x hx)
+      | (rename_i i _ a hfa hch
+         simp only [Option.some.injEq, Prod.mk.injEq] at h; obtain ⟨rfl, _⟩ := h
+         refine ⟨[a], rfl, ?_⟩
+         intro x hx
+         simp only [List.mem_singleton] at hx; subst hx
+         simp only [Bool.and_eq_true] at hch
+         exact ⟨List.mem_of_getElem? hfa, hch.1⟩)
+      | (simp only [Option.some.injEq, Prod.mk.injEq] at h; obtain ⟨rfl, _⟩ := h
+         refine ⟨[], ?_, ?_⟩ <;> simp)
+
 end Pandora.Proofs.C14
